@@ -7,9 +7,9 @@ Matches(x, r) == \A k \in DOMAIN x : k \in DOMAIN r /\ r[k] = x[k]
 Is(k) == l <= Len(Rec) /\ E.e = k /\ l' = l + 1
 TInit == InitWith([T |-> 1, perReq |-> 0, cancel |-> 1, ord |-> 0, lazy |-> 0]) /\ ev = [e |-> "init"] /\ l = 1
 TReset == Is("reset") /\ Reset(E.cfg)
-TCreate == Is("create") /\ Create(E.c, E.key) /\ Matches(ev', E)
+TCreate == Is("create") /\ (Create(E.c, E.key) \/ CreateEager(E.c, E.key)) /\ Matches(ev', E)
 TPoll == Is("poll") /\ PollAny(E.c) /\ Matches(ev', E)
-TComplete == Is("complete") /\ Complete(E.c, E.out) /\ Matches(ev', E)
+TComplete == Is("complete") /\ (Complete(E.c, E.out) \/ CompleteEarly(E.c, E.out)) /\ Matches(ev', E)
 TDrop == Is("drop") /\ Drop(E.c) /\ Matches(ev', E)
 TAdvance == Is("advance") /\ Advance(E.d) /\ Matches(ev', E)
 TNext == TReset \/ TCreate \/ TPoll \/ TComplete \/ TDrop \/ TAdvance
